@@ -43,6 +43,8 @@ type DutiesCase struct {
 	Ours        []uint64   `json:"ours"`         // validator indices we hold accounts for (account i uses key i)
 	Duties      []DutySpec `json:"duties"`
 	AttDataErr  bool       `json:"att_data_err,omitempty"`
+	ErrKind     string     `json:"err_kind,omitempty"`   // kind of the attestation data / duties failure
+	DutiesErr   bool       `json:"duties_err,omitempty"` // the attester duties request of Subscribe fails
 	SourceEpoch uint64     `json:"source_epoch"`
 	TargetEpoch uint64     `json:"target_epoch"`
 	ZeroSigFor  int        `json:"zero_sig_for"` // account position whose signature comes back zero (-1: none)
@@ -50,12 +52,17 @@ type DutiesCase struct {
 }
 
 type dutiesProvider struct {
-	duties []DutySpec
+	duties  []DutySpec
+	errKind string
+	fail    bool
 }
 
 func (d dutiesProvider) AttesterDuties(_ context.Context, opts *api.AttesterDutiesOpts) (*api.Response[[]*apiv1.AttesterDuty], error) {
 	if opts == nil || len(opts.Indices) == 0 {
 		return nil, errors.New("no validator indices specified")
+	}
+	if d.fail {
+		return nil, clientError(d.errKind, "v1/validator/duties/attester")
 	}
 	return &api.Response[[]*apiv1.AttesterDuty]{Data: buildDuties(d.duties), Metadata: map[string]any{}}, nil
 }
@@ -80,7 +87,7 @@ type attDataProvider struct{ c *DutiesCase }
 
 func (a attDataProvider) AttestationData(_ context.Context, opts *api.AttestationDataOpts) (*api.Response[*phase0.AttestationData], error) {
 	if a.c.AttDataErr {
-		return nil, errors.New("scripted attestation data failure")
+		return nil, clientError(a.c.ErrKind, "v1/validator/attestation_data")
 	}
 	// What the client library guarantees: slot and committee index echo the request, source and
 	// target are present.
@@ -227,7 +234,7 @@ func runDuties(c *DutiesCase, out *outcome) {
 	}
 	subSubmit := &subsSubmitter{done: make(chan struct{}, 1)}
 	sub, err := subscriber.New(ctx, subscriber.WithLogLevel(zerolog.Disabled), subscriber.WithProcessConcurrency(2), subscriber.WithMonitor(nullMonitor),
-		subscriber.WithChainTimeService(clock), subscriber.WithAttesterDutiesProvider(dutiesProvider{duties: c.Duties}),
+		subscriber.WithChainTimeService(clock), subscriber.WithAttesterDutiesProvider(dutiesProvider{duties: c.Duties, errKind: c.ErrKind, fail: c.DutiesErr}),
 		subscriber.WithAttestationAggregator(agg), subscriber.WithBeaconCommitteeSubmitter(subSubmit))
 	if err != nil {
 		out.harness = "cannot construct beacon committee subscriber: " + err.Error()
@@ -299,6 +306,8 @@ func genDutiesCase(t *rapid.T) Case {
 		SourceEpoch: 0,
 		ZeroSigFor:  rapid.SampledFrom([]int{-1, -1, -1, 0, 1}).Draw(t, "zeroSigFor"),
 		AttDataErr:  rapid.IntRange(0, 11).Draw(t, "attDataErr") == 0,
+		DutiesErr:   rapid.IntRange(0, 15).Draw(t, "dutiesErr") == 0,
+		ErrKind:     genErrKind(t, "errKind"),
 		SubmitErr:   rapid.IntRange(0, 11).Draw(t, "submitErr") == 0,
 	}
 	// attestation data epochs around the duty epoch (the attester validates them)
